@@ -16,6 +16,7 @@ from . import ser_classes
 from . import ser_common as sc
 
 LEVEL = "proof"
+EXTRA_PROPS = ["QuantemModel.Props.C14Ext"]   # growth 6: entries of a skip argument as a set, path-by-path absence, Ptychography.save in histories
 MANIFEST_ENTRY = {
     "category": "proof",
     "text": "Lean 4 theorems over the serializer model with skip lists. One statement covers all clauses (`skip_general`): for every isinstance relation that contains the loader's exact-type match (the generator's universe, or the one with abstract base classes whose instances are virtual subclasses, and `object`), names and types given at save time and names given at load time, the loaded object is exactly the graph with every attribute removed, at every attribute-nested level, whose name is listed at either time or which is an instance of a listed type; the recorded lists are what the loader merges in, everything else loads as without skipping. Corollaries: load-time = save-time names also next to types (`skip_load_eq_save_general`), both = once, order/multiplicity irrelevant. The `skip` argument forms (bare name / bare type / sequence, entries that are neither) and the list Ptychography.save composes are modelled (`normSkip_*`, `ptychoSkip_spec`). Exception safety: a save raises part-way exactly when the stripped graph still holds an unpicklable value (`raises_iff_stripped`), a raising or rejected call changes no target (`sstep_raised_noop`), and over EVERY history of save/load calls on live objects (failing calls before and in between included) a load returns the stripped graph of the last completed save (`skip_history`). The round-1..4 theorems (names / types / load=save / recorded lists / absent names) are kept. Tied to the code by differential runs: generated attribute-nested graphs with random name/type lists in the call shapes save / load / both / mixed on both stores, classes that themselves provide names, abstract-base-class type lists, unpicklable attributes, load-time type lists, call histories with rejected and failing saves, the recorded skip lists and the keys written per object group (stored tree) as an internal stage, Ptychography.save histories on one live object; the clauses are evaluated on the real results with Python's own isinstance on the live object as oracle.",
@@ -311,14 +312,17 @@ def ptycho_stream(ctx, drv=None):
         path = os.path.join(base, "p.zip" if store == "zip" else "pdir")
         # every form the `skip: str | type | Sequence[str | type]` argument accepts
         form = rng.choice(["list", "tuple", "bare"])
-        if j < 5:
+        if j < 6:
             # fixed head of the history (whatever the seed): list + default mode (re-used for a raw save right after),
-            # tuple + raw data, ONE BARE NAME, list + raw data (re-used for a default save right after), ONE BARE TYPE
-            form, raw = [("list", False), ("tuple", True), ("bare", False), ("list", True), ("bare", False)][j]
+            # tuple + raw data, ONE BARE NAME, list + raw data (re-used for a default save right after), ONE BARE TYPE,
+            # a list of 12 names + default mode (re-used)
+            form, raw = [("list", False), ("tuple", True), ("bare", False), ("list", True), ("bare", False), ("list", False)][j]
             if j == 2:
                 tname = None
             if j == 4:
                 tname = tname or "ndarray"
+            if j == 5:
+                names, tname = plain[:6] + plain[-6:], None
         if form == "bare":
             if tname and (j == 4 or rng.chance(0.5)):
                 names = []
@@ -366,15 +370,36 @@ def ptycho_stream(ctx, drv=None):
                 ctx.disagree("ptycho-recorded-lists", case, mm, rr, note="skip lists recorded in the file vs normSkip (ptychoSkipArg …)")
         if repr(skip_arg) != arg_before:
             ctx.disagree("skip-argument-mutated", case, arg_before, repr(skip_arg), note="Ptychography.save changed the caller's skip argument in place")
-        if form == "list" and (j % 2 == 0 or j < 5):
+        if form == "list" and (j % 2 == 0 or j < 6):
             # the caller re-uses ITS list object for the next save, with the other save_raw_data: the second file
             # must follow the list as the caller wrote it
             ctx.count()
             try:
                 with contextlib.redirect_stdout(io.StringIO()):
                     prob.save(path, mode="o", store=store, skip=skip_arg, save_raw_data=not raw, verbose=False)
+                    recorded2 = cx.store_summary(path, tmap, tree=False)
                     back2 = serialize.load(path)
                 have2 = set(vars(back2))
+                if drv is not None:
+                    m2 = drv.ask({"op": "ptychoskip", "skip": {"seq": [["n", k] for k in names] + ([["t", tname]] if tname else [])}, "raw": not raw})
+                    mm2 = {"names": sorted(set(m2["ok"]["names"])), "types": m2["ok"]["types"]}
+                    rr2 = {"names": sorted(set(recorded2["names"])), "types": recorded2["types"]}
+                    if mm2 != rr2:
+                        ctx.disagree("ptycho-recorded-lists", dict(case, reuse=True), mm2, rr2,
+                                     note="second save with the caller's re-used list: recorded skip lists vs normSkip (ptychoSkipArg …)")
+                if repr(skip_arg) != arg_before:
+                    ctx.disagree("skip-argument-mutated", dict(case, reuse=True), arg_before, repr(skip_arg),
+                                 note="Ptychography.save changed the caller's skip argument in place")
+                for kk in plain:
+                    vv = vars(prob)[kk]
+                    if kk not in names and not (tname and isinstance(vv, tmap[tname])) and kk not in have2 and vv is not None:
+                        ctx.pred_fail("ptycho-survivor-lost", f"attribute {kk} not named in skip is missing (re-used list)", dict(case, reuse=True),
+                                      observed="absent", required="present")
+                if tname:
+                    for kk, vv in vars(prob).items():
+                        if kk in plain and isinstance(vv, tmap[tname]) and kk in have2:
+                            ctx.pred_fail("ptycho-skip-type", f"Ptychography.save(skip=[{tname}]) kept attribute {kk} (re-used list)", dict(case, reuse=True),
+                                          observed="present", required="absent")
                 if (not raw) and "_dset" not in have2:
                     ctx.pred_fail("ptycho-dset-dropped", "save_raw_data=True dropped the dataset when the caller re-used the skip list of an earlier save", dict(case, reuse=True),
                                   observed="absent", required="present")
@@ -489,12 +514,13 @@ def run_real_x(obj, store, py_save, py_load, tag, want_summary=True):
         shutil.rmtree(base, ignore_errors=True)
 
 
-def check_case_x(ctx, drv, recipe, save_arg, load_arg, store, idx, form="list"):
+def check_case_x(ctx, drv, recipe, save_arg, load_arg, store, idx, form="list", load_form=None):
     obj = cx.XBuilder(None).build(recipe)
     spec = cx.spec_of(recipe)
-    case = {"x": True, "recipe": recipe, "save": save_arg, "load": load_arg, "store": store, "form": form}
+    case = {"x": True, "recipe": recipe, "save": save_arg, "load": load_arg, "store": store, "form": form, "load_form": load_form}
     ctx.count()
-    r = run_real_x(obj, store, cx.py_arg(save_arg, ALLTYPES, form), cx.py_arg(load_arg, ALLTYPES, "tuple" if form == "list" else "list"), idx)
+    r = run_real_x(obj, store, cx.py_arg(save_arg, ALLTYPES, form),
+                   cx.py_arg(load_arg, ALLTYPES, load_form or ("tuple" if form == "list" else "list")), idx)
     m = drv.ask({"op": "roundtripX", "v": spec, "skip_save": save_arg, "skip_load": load_arg})
     if "driver" in str(m.get("err", "")):
         raise RuntimeError(m)
@@ -642,6 +668,58 @@ def fixed_block_x(ctx, drv):
     ctx.dist["x:fixed-block-cases"] += k
 
 
+G6_NAMES12 = ["a0", "a1", "a2", "a3", "a4", "a5", "a6", "a7", "a8", "a9", "ra", "raw"]            # the hits are the 11th and 12th entry
+G6_TYPES11 = ["Logger", "Generator", "TorchGenerator", "Linear", "Module", "Parameter", "Path", "set", "tuple", "Tensor", "ndarray"]  # the hit is the 11th
+
+
+def fixed_block_g6(ctx, drv):
+    """growth round 6, fixed cases (reached whatever the seed):
+    * a name that sits two and three levels below objects that LACK it (root.stage.frame.raw, root.stage.frame.inner.raw),
+      and one that is present at the root, missing on the two levels below and present again three levels down —
+      given at save time, at load time, at both (and load = save);
+    * names that are prefixes of each other (`w`/`we`/`wei`/`weight`/`weights`, `ra`/`raw`/`raw_data`/`_raw`);
+    * `int` with a bool attribute, `float` with an np.float64 attribute (isinstance, as the property states);
+    * skip lists with 12 names / 11 types whose only hits are the LAST entries; containers with 12 elements among the
+      removed and among the surviving attributes;
+    * the skip argument as a Sequence that is neither list nor tuple, a list subclass, a deque — at save and at load time;
+    * ONE caller-owned list object passed to consecutive saves / loads and edited by the caller in between."""
+    t1, t2 = cx.deep_tree(False), cx.deep_tree(True)
+    k = 0
+    for recipe, names, types in (
+            (t1, ["raw"], []), (t2, ["raw"], []), (t1, ["we"], []), (t1, ["weight", "w"], []), (t1, G6_NAMES12, []),
+            (t1, [], ["int"]), (t1, [], ["float"]), (t1, [], G6_TYPES11), (t1, ["big", "table"], []), (t2, ["raw", "nums"], ["bool"]),
+            (t1, G6_NAMES12[::-1], ["bool", "float"])):
+        check_case(ctx, drv, recipe, names, types, ("zip", "dir")[k % 2], f"g6_{k}")
+        k += 1
+    seq = lambda ns, ts=(): {"seq": [["n", n] for n in ns] + [["t", t] for t in ts]}   # noqa: E731
+    for recipe, sa, la, form, lform in (
+            (t1, seq(G6_NAMES12), seq([]), "seqsub", "list"),
+            (t1, seq([]), seq(["raw"]), "list", "deque"),
+            (t2, seq(["raw"], ["int"]), seq([]), "listsub", "seqsub"),
+            (t1, seq(["we"], ["float"]), seq(["w"]), "seqsub", "seqsub"),
+            (t1, seq([], G6_TYPES11), seq(G6_NAMES12), "deque", "listsub"),
+            (t2, seq([]), {"bare_name": "raw"}, "tuple", "list"),
+            (t1, seq(["raw", "raw", "ra", "raw"], ["int", "int"]), seq(["raw"]), "tuple", "tuple")):      # repeated entries
+        check_case_x(ctx, drv, recipe, sa, la, ("dir", "zip")[k % 2], f"g6_{k}", form, lform)
+        k += 1
+    for store in ("zip", "dir"):
+        sv = lambda path, skip, ow=False, who="L": {"k": "save", "obj": 0, "path": path, "overwrite": ow, "bad_level": False,  # noqa: E731
+                                                    "skip": skip, "pyobj": who}
+        ld = lambda path, skip: {"k": "load", "path": path, "skip": skip, "pyobj": "M"}   # noqa: E731
+        ops = [sv("p0", seq(["raw"], ["int"])), sv("p1", seq(["raw"], ["int"])),           # the same list object twice
+               ld("p0", seq([])), ld("p1", seq([])),
+               sv("p2", seq(["raw", "gain", "weight"], ["int"])),                          # the caller appended to ITS list
+               ld("p2", seq([])),
+               sv("p0", seq(["we"]), ow=True),                                              # … and replaced its contents
+               ld("p0", seq(["raw"])), ld("p1", seq(["raw"])),                              # one load-time list object on two files
+               ld("p2", seq(["keep"])),
+               sv("p1", seq(G6_NAMES12), ow=True, who="N"), sv("p3", seq(G6_NAMES12), who="N"),
+               ld("p1", seq([])), ld("p3", seq(["keep"]))]
+        run_history(ctx, drv, [t1], ops, store, f"g6_{k}")
+        k += 1
+    ctx.dist["x:g6-fixed-block-cases"] += k
+
+
 def run_history(ctx, drv, pool_recipes, ops, store, idx):
     """a history of save / load calls on the same live objects and one directory: every call's outcome
     is compared with the model (`srun`), and every load is compared with the stripped graph of the
@@ -658,23 +736,35 @@ def run_history(ctx, drv, pool_recipes, ops, store, idx):
     def real_path(p):
         return os.path.join(base, p + (".zip" if store == "zip" else ""))
     outs, last = [], {}
+    owned = {}      # "pyobj": the CALLER's own list objects, passed again and again and edited by the caller between calls
+
+    def py_skip(op, form):
+        if "pyobj" in op:
+            lst = owned.setdefault(op["pyobj"], [])
+            lst[:] = cx.py_arg(op["skip"], ALLTYPES, "list")
+            return lst
+        return cx.py_arg(op["skip"], ALLTYPES, form)
     try:
         for op in ops:
             ctx.count()
+            arg = py_skip(op, "tuple" if len(outs) % 2 and op["k"] == "save" else "list")
+            arg_before = repr(arg)
             try:
                 with cx.quiet():
                     if op["k"] == "save":
                         existed = os.path.exists(real_path(op["path"]))
                         objs[op["obj"]].save(real_path(op["path"]), mode="o" if op.get("overwrite") else "w", store=store,
-                                             skip=cx.py_arg(op["skip"], ALLTYPES, "tuple" if len(outs) % 2 else "list"),
-                                             compression_level=11 if op.get("bad_level") else 3)
+                                             skip=arg, compression_level=11 if op.get("bad_level") else 3)
                         outs.append({"saved": True})
                         last[op["path"]] = op
                     else:
-                        back = serialize.load(real_path(op["path"]), skip=cx.py_arg(op["skip"], ALLTYPES))
+                        back = serialize.load(real_path(op["path"]), skip=arg)
                         outs.append({"loaded": sc.observe(back)})
             except Exception as e:  # noqa
                 outs.append({"raised": type(e).__name__, "msg": str(e)[:120]})
+            if repr(arg) != arg_before:
+                ctx.disagree("skip-argument-mutated", dict(case, call=len(outs) - 1), arg_before, repr(arg),
+                             note="save()/load() changed the caller's skip argument in place")
             o = outs[-1]
             # ---- the property on the implementation
             if op["k"] == "save":
@@ -797,6 +887,7 @@ def run(ctx):
             ctx.dist[f"types_hit_nested:{sum(1 for t in types if t in nested_types)}"] += 1
             check_case(ctx, drv, recipe, names, types, rng.choice(["zip", "dir"]), i)
         fixed_block_x(ctx, drv)
+        fixed_block_g6(ctx, drv)
         ext_stream(ctx, drv)
         history_stream(ctx, drv)
         ptycho_stream(ctx, drv)
@@ -816,7 +907,7 @@ def replay(ctx, rep):
     drv = Driver("C14")
     try:
         if case.get("x"):
-            check_case_x(ctx, drv, case["recipe"], case["save"], case["load"], case["store"], "replay", case.get("form", "list"))
+            check_case_x(ctx, drv, case["recipe"], case["save"], case["load"], case["store"], "replay", case.get("form", "list"), case.get("load_form"))
             return True
         if case.get("hist"):
             run_history(ctx, drv, case["pool"], case["ops"], case["store"], "replay")
